@@ -105,6 +105,11 @@ let handle (toks : string list) : string =
                         j_v = pf g; j_r = pf h; j_s = pf i; j_hash = pf j } with
      | Some t -> "ok " ^ render_tx t ^ " " ^ hex_of_bytes (tx_hash keccak256 t)
      | None -> "err")
+  | ["json_of"; t] ->
+    let t = parse_tx t in
+    let j = json_of_tx t (tx_hash keccak256 t) in
+    let rf = function JAbsent -> "M" | JBad -> "X" | JS s -> "S:" ^ hex_of_bytes s in
+    String.concat " " (List.map rf [j.j_nonce; j.j_price; j.j_gas; j.j_to; j.j_value; j.j_input; j.j_v; j.j_r; j.j_s; j.j_hash])
   | ["quantity"; n] -> ascii_of_bytes (enc_quantity (n_of_string n))
   | ["dec_quantity"; maxlen; s] ->
     (* s: the JSON string content, hex-encoded ASCII *)
